@@ -83,6 +83,17 @@ def _check_tmana(c, tmp):
         arg = os.path.join(tmp, "angles.csv")
         np.savetxt(arg, given, delimiter=",")
     thr = float(np.quantile(scores, 0.97))
+    if c["seed"] % 2 == 0:
+        # boundary: the threshold EQUALS the score of a voxel that is the best one within the particle diameter (must not be extracted)
+        cand = np.argwhere(scores > np.quantile(scores, 0.9))
+        cand = cand[np.argsort(scores[tuple(cand.T)])]
+        for v in cand[:400]:
+            lo, hi = np.maximum(v - int(np.ceil(c["diam"])), 0), np.minimum(v + int(np.ceil(c["diam"])) + 1, shape)
+            sub = scores[lo[0]:hi[0], lo[1]:hi[1], lo[2]:hi[2]]
+            gg = np.argwhere(sub > scores[tuple(v)]) + lo
+            if not np.any(np.linalg.norm(gg - v, axis=1) <= c["diam"]):
+                thr = float(scores[tuple(v)])
+                break
     m, e = call(tmana.scores_extract_particles, scores, amap, arg, 5, c["diam"], scores_threshold=thr, angles_order=c["order"], angles_numbering=base)
     if e is not None:
         return {"raised": f"scores_extract_particles {type(e).__name__}: {e}"}
